@@ -241,6 +241,19 @@ def rustStep (r : RSt) (ws : List String) : RSt × String :=
       (match res.1 with
        | some s' => ({ r with st := some s' }, res.2)
        | none => ({ r with dead := true }, res.2))
+  | ["tryinsert", _, _] | ["tryremove", _] =>
+    (match r.raw, r.st with
+     | some m, _ =>
+       (match m.checkDetailed r.cfg with
+        | .ok none => (r, "raw-unsupported")
+        | .ok (some _) => (r, "err DataIntegrity")
+        | x => (r, fmtRes (fun _ => "") x))
+     | none, some s =>
+       (match mutStep r.cfg s ws with
+        | some (some s', out) => ({ r with st := some s' }, out)
+        | some (none, out) => ({ r with dead := true }, out)
+        | none => (r, "bad-op"))
+     | none, none => (r, "bad-op"))
   | ["validateop"] =>
     match r.view? with
     | some m => (r, fmtRes (fun e => match e with | none => "ok" | some _ => "err DataIntegrity") (m.checkDetailed r.cfg))
